@@ -1780,6 +1780,15 @@ def summarize_online(ix, cls, facts=()):
                 env[nm] = ('deque', M[0], None)
             elif isinstance(v, ast.List) and not v.elts:
                 listbuf[nm] = 0
+            elif isinstance(v, ast.ListComp) and len(v.generators) == 1 and not v.generators[0].ifs and isinstance(v.elt, ast.Call) and ast.unparse(v.elt.func).endswith('deque') \
+                    and isinstance(v.generators[0].iter, ast.Call) and getattr(v.generators[0].iter.func, 'id', None) == 'range' and len(v.generators[0].iter.args) == 1 \
+                    and isinstance(v.generators[0].iter.args[0], ast.Constant) and isinstance(v.generators[0].iter.args[0].value, int):
+                # [deque(maxlen=M) for _ in range(K)]: K ring buffers of one length
+                M = [it.aff(kw.value, env) for kw in v.elt.keywords if kw.arg == 'maxlen']
+                if not M:
+                    raise Unknown('deque without maxlen')
+                for i_ in range(v.generators[0].iter.args[0].value):
+                    env['%s[%d]' % (nm, i_)] = ('deque', M[0], None)
             else:
                 raise Unknown('constructor statement %s' % ast.unparse(st)[:50])
         elif isinstance(st, ast.Expr) and isinstance(st.value, ast.Call) and isinstance(st.value.func, ast.Attribute):
@@ -1799,6 +1808,13 @@ def summarize_online(ix, cls, facts=()):
         raise Unknown('constructor does not prefill the buffers through reset()')
     # reset: prefill
     for st in reset.node.body:
+        if isinstance(st, ast.Assign) and len(st.targets) == 1 and isinstance(st.targets[0], ast.Name):
+            # a local of reset() (`size = self.end + 1`)
+            try:
+                env[st.targets[0].id] = it.aff(st.value, env)
+                continue
+            except Unknown:
+                raise Unknown('reset statement %s' % ast.unparse(st)[:40])
         if isinstance(st, ast.Expr) and isinstance(st.value, ast.Call) and isinstance(st.value.func, ast.Attribute) and st.value.func.attr == 'extend' \
                 and len(st.value.args) == 1 and isinstance(st.value.args[0], (ast.BinOp, ast.ListComp)):
             # buffer.extend([c] * M)
